@@ -11,8 +11,10 @@ import (
 	"encoding/json"
 	"errors"
 	"fmt"
+	"io"
 	"net"
 	"os"
+	"strings"
 	"time"
 
 	"github.com/c2FmZQ/ech"
@@ -28,11 +30,15 @@ const unit = time.Second
 
 type scenario struct {
 	// Hello: "buffered" (all bytes available before NewConn), "late" (arrives at t=1), "two-fragments" (half at t=0, rest at t=2),
-	// "never" (nothing), "stall@N" (first N bytes then silence)
+	// "never" (nothing), "stall@N" (first N bytes then silence); first records that make NewConn fail BEFORE a Conn exists (round 13):
+	// "bad-record" (content type 23), "oversized-record" (a header announcing 65535 bytes), "eof" (the client hangs up at once),
+	// "garbage-then-eof" (plain HTTP on the TLS port, then the client hangs up), "eof-mid-hello" (half a record, then end of stream),
+	// "eof-after-first-record" (the first of two records, then end of stream); "rejected-hello" fails after the Conn exists
 	Hello   string `json:"hello"`
 	StallAt int    `json:"stall_at,omitempty"`
 	// Cancel: "never", "t0", "t1", "t3" (a separate thread cancels at that time), "after-return" (the caller cancels right after NewConn returned),
-	// "deadline2" (the context carries a deadline at t=2 instead)
+	// "deadline2" (the context carries a deadline at t=2 instead), "background" (round 13: a context that cannot end, context.Background();
+	// nobody ever cancels anything). In every other scenario the caller's deferred cancel() runs 10 s after NewConn returned.
 	Cancel string `json:"cancel"`
 	Keys   bool   `json:"with_keys"`
 	// BlockedWrites: the client transport does not accept writes (peer not reading): an alert write can only end through the deadline
@@ -76,10 +82,13 @@ type observation struct {
 	cancelAt    time.Duration
 	cancelled   bool
 	callsAfter  []vnet.Call
-	read2N      int
-	read2Err    error
-	didRetry    bool
-	helloLen    int
+	// lingering: logical threads that are neither the caller nor the harness's client/canceller (i.e. goroutines NewConn started)
+	// and that were still there at a later virtual time than the one NewConn returned at (or never finished)
+	lingering []string
+	read2N    int
+	read2Err  error
+	didRetry  bool
+	helloLen  int
 }
 
 var helloRec, innerRec, hello2Rec, inner2Rec, hrrRec, fragRec, rejectedRec []byte
@@ -140,6 +149,8 @@ func run(sc scenario, choose vs.Chooser, traceOn bool) (*observation, *vs.Sched,
 				ob.cancelAt, ob.cancelled = vs.Elapsed(), true
 				c2()
 			})
+		} else if sc.Cancel == "background" {
+			ctx, cancel = context.Background(), func() {}
 		} else {
 			ctx, cancel = vs.WithCancel(context.Background())
 		}
@@ -174,6 +185,23 @@ func run(sc scenario, choose vs.Chooser, traceOn bool) (*observation, *vs.Sched,
 		case "rejected-hello":
 			// a complete, well-framed ClientHello that the PROCESSING refuses (ECH type "inner" sent to a server with keys)
 			t.Feed(rejectedRec)
+		case "oversized-record":
+			// a record header that announces more than a record may carry: refused after five bytes
+			t.Feed([]byte{22, 3, 1, 0xff, 0xff})
+		case "eof":
+			// the client hangs up without sending anything (a port scan)
+			t.End(io.EOF)
+		case "garbage-then-eof":
+			// plain HTTP on the TLS port ("GET /" reads as a record header announcing 8239 bytes), then the client hangs up
+			t.Feed([]byte("GET / HTTP/1.1\r\nHost: public.example\r\n\r\n"))
+			t.End(io.EOF)
+		case "eof-mid-hello":
+			t.Feed(helloRec[:len(helloRec)/2])
+			t.End(io.EOF)
+		case "eof-after-first-record":
+			// the first of the two records of a hello is complete, then the stream ends
+			t.Feed(fragRec[:firstRecLen])
+			t.End(io.EOF)
 		case "never":
 		}
 		// canceller
@@ -205,6 +233,14 @@ func run(sc scenario, choose vs.Chooser, traceOn bool) (*observation, *vs.Sched,
 		ob.seqAtReturn = t.Seq()
 		ob.rdlAtReturn, ob.wdlAtReturn = t.Deadlines()
 		if err != nil {
+			// round 13: "the context governs only the initial read" - NewConn has returned, so whatever happens to the context
+			// from here on (the caller cancels it at once; another thread or its own timer ends it later; the caller's deferred
+			// cancel() runs 10 s later; it never ends) is none of the connection's business any more, whether NewConn succeeded or not
+			if sc.Cancel == "after-return" {
+				ob.cancelAt, ob.cancelled = vs.Elapsed(), true
+				cancel()
+			}
+			vs.Sleep(10 * unit)
 			return
 		}
 		// the "client does not read" condition only concerns the failure path (the alert write); once NewConn has
@@ -244,6 +280,15 @@ func run(sc scenario, choose vs.Chooser, traceOn bool) (*observation, *vs.Sched,
 	for _, c := range t.Calls {
 		if ob.returned && c.Seq > ob.seqAtReturn && c.Kind != "Close" {
 			ob.callsAfter = append(ob.callsAfter, c)
+		}
+	}
+	for _, te := range s.ThreadEnds() {
+		if ob.returned && te.Name != "main" && te.Name != "client" && te.Name != "canceller" && (!te.Done || te.At > ob.returnedAt) {
+			end := "never finished"
+			if te.Done {
+				end = fmt.Sprintf("finished at %v", te.At)
+			}
+			ob.lingering = append(ob.lingering, fmt.Sprintf("thread %d (%s) %s", te.ID, te.Name, end))
 		}
 	}
 	return ob, s, t
@@ -287,7 +332,7 @@ func monitor(sc scenario, ob *observation, s *vs.Sched, t *vnet.Conn) (key, what
 	if sc.SlowDeadline {
 		slack = unit // what the watcher does to stop NewConn takes that long on this transport
 	}
-	if sc.Hello == "bad-record" || sc.Hello == "rejected-hello" {
+	if refusedAtOnce(sc.Hello) {
 		// the refusal itself does not depend on the context; but the alert write may block (client not reading), and then the
 		// context is what bounds NewConn
 		switch {
@@ -302,7 +347,7 @@ func monitor(sc scenario, ob *observation, s *vs.Sched, t *vnet.Conn) (key, what
 		case !sc.BlockedWrites && ob.returnedAt > 0:
 			return "newconn-late", fmt.Sprintf("NewConn took until %v to refuse a record that was available at 0", ob.returnedAt)
 		}
-		return "", ""
+		return afterFailedReturn(ob)
 	}
 	if ob.newConnErr != nil {
 		// (a) failing is only legitimate if the context ended while NewConn was still reading (or at the same instant)
@@ -315,7 +360,7 @@ func monitor(sc scenario, ob *observation, s *vs.Sched, t *vnet.Conn) (key, what
 		if ctxEnds && ob.returnedAt > ctxEndAt+slack {
 			return "newconn-late", fmt.Sprintf("the context ended at %v but NewConn returned at %v", ctxEndAt, ob.returnedAt)
 		}
-		return "", ""
+		return afterFailedReturn(ob)
 	}
 	// NewConn succeeded
 	if !helloComplete {
@@ -353,6 +398,34 @@ func monitor(sc scenario, ob *observation, s *vs.Sched, t *vnet.Conn) (key, what
 		if ob.writeErr != nil {
 			return "write-after-return-fails", fmt.Sprintf("Conn.Write after a successful NewConn: %v", ob.writeErr)
 		}
+	}
+	if len(ob.lingering) > 0 {
+		return "goroutine-outlives-newconn", fmt.Sprintf("NewConn returned successfully at %v and left a goroutine behind: %s", ob.returnedAt, strings.Join(ob.lingering, "; "))
+	}
+	return "", ""
+}
+
+// refusedAtOnce: first records (all there at t=0) on which NewConn fails whatever the context does.
+func refusedAtOnce(hello string) bool {
+	switch hello {
+	case "bad-record", "rejected-hello", "oversized-record", "eof", "garbage-then-eof", "eof-mid-hello", "eof-after-first-record":
+		return true
+	}
+	return false
+}
+
+// afterFailedReturn (round 13): the context governs only the initial read. A NewConn that has returned an error has returned
+// just as much as one that succeeded: when the context ends afterwards (or never ends) nothing may happen to the transport the
+// caller passed in - it is the caller's object, closed or not, and a wrapper may be counting - and nothing NewConn started may
+// still be waiting for that context. The canceller, the context's own timer, the caller's cancel() right after the return and
+// the caller's deferred cancel() 10 s later all come after the return in these executions.
+func afterFailedReturn(ob *observation) (key, what string) {
+	if len(ob.callsAfter) > 0 {
+		c := ob.callsAfter[0]
+		return "deadline-call-after-failed-return", fmt.Sprintf("%s(%v) on the transport at %v, after NewConn had returned (%v) at %v", c.Kind, c.T.Sub(vs.Base), c.At, ob.newConnErr, ob.returnedAt)
+	}
+	if len(ob.lingering) > 0 {
+		return "goroutine-outlives-failed-newconn", fmt.Sprintf("NewConn returned (%v) at %v and left a goroutine behind: %s", ob.newConnErr, ob.returnedAt, strings.Join(ob.lingering, "; "))
 	}
 	return "", ""
 }
@@ -445,6 +518,54 @@ func scenarios() []scenario {
 				continue
 			}
 			out = append(out, scenario{Hello: h, Cancel: c, Keys: true, SlowDeadline: true})
+		}
+	}
+	// round 13: "the context governs only the initial read" also when that read (or what follows it) FAILS: first records that
+	// NewConn refuses before a Conn exists (wrong content type, oversized length, end of stream at once / after plain HTTP / in the
+	// middle of the record / after the first of two records) and one it refuses afterwards, x what becomes of the context AFTER
+	// the failed return {the caller's deferred cancel() 10 s later, the caller's cancel() at once, another thread at t=0/1/3, its
+	// own timer at t=2, a timer context cancelled at t=1, nothing ever (context.Background())} and contexts that end before or
+	// while NewConn runs x keys x transport {plain, CloseRead/CloseWrite, SetDeadline reporting an error} x client {reads the alert,
+	// never reads it - then the context is what ends NewConn}: no deadline call on the caller's transport after the return and
+	// nothing NewConn started is still there (afterFailedReturn). The context that cannot end is also run with the valid hellos.
+	seen := map[scenario]bool{}
+	for _, sc := range out {
+		seen[sc] = true
+	}
+	add := func(sc scenario) {
+		if !seen[sc] {
+			seen[sc] = true
+			out = append(out, sc)
+		}
+	}
+	for _, h := range []string{"bad-record", "oversized-record", "eof", "garbage-then-eof", "eof-mid-hello", "eof-after-first-record", "rejected-hello"} {
+		for _, c := range []string{"never", "after-return", "background", "t0", "t1", "t3", "before-call", "deadline2", "deadline5-cancelled-at-1"} {
+			for _, k := range []bool{true, false} {
+				if h == "rejected-hello" && !k {
+					continue // without keys that hello is passed through, not refused
+				}
+				add(scenario{Hello: h, Cancel: c, Keys: k})
+				if k {
+					add(scenario{Hello: h, Cancel: c, Keys: k, TCPLike: true})
+					if c == "never" || c == "after-return" || c == "t0" || c == "t1" {
+						add(scenario{Hello: h, Cancel: c, Keys: k, DeadlineErr: true})
+					}
+					if c == "t0" || c == "t1" || c == "before-call" || c == "deadline2" {
+						add(scenario{Hello: h, Cancel: c, Keys: k, BlockedWrites: true})
+					}
+				}
+			}
+		}
+	}
+	for _, h := range []string{"buffered", "late", "two-records"} {
+		for _, k := range []bool{true, false} {
+			add(scenario{Hello: h, Cancel: "background", Keys: k})
+			add(scenario{Hello: h, Cancel: "background", Keys: k, PriorDeadline: true})
+			if k {
+				add(scenario{Hello: h, Cancel: "background", Keys: k, Retry: true})
+				add(scenario{Hello: h, Cancel: "background", Keys: k, TCPLike: true})
+				add(scenario{Hello: h, Cancel: "background", Keys: k, Peeked: true})
+			}
 		}
 	}
 	return out
@@ -596,7 +717,7 @@ func Run(r *ev.Run, replay string) {
 		return
 	}
 	b := bound(r.Tier)
-	r.Rule(fmt.Sprintf("E3 stateless exploration of the real NewConn (sources rewritten into scheduler shims at check time) in virtual time: scenarios = hello {already buffered, arriving at t=1, in two fragments at t=0 and t=2, in two TLS records at t=0 and t=2, only the first of two records, never, a complete record that is not a handshake record / a complete ClientHello that the processing refuses (the alert is written to a client that reads or never reads)} x context {never ends, already cancelled before the call, cancelled by another thread at t=0/1/3, cancelled by the caller right after NewConn returned, deadline at t=2, deadline at t=5 cancelled at t=1} x keys {yes,no} x {plain use, HelloRetryRequest + second hello (in one record, or in two records cut after 3 / 100 bytes) after the return, caller's own transport deadline set before the call}; threads = caller (NewConn, then Read/Write on the result), canceller, client, and the watcher NewConn spawns; ALL schedules with at most %d deviations (preemption / non-canonical thread pick, non-first ready select case, timer order). Monitors: NewConn fails only if the context ended before the hello was complete and then no later than that instant; after a successful return no deadline call starts, no deadline is left set (a deadline the caller had set before is still exactly that), and the caller's I/O succeeds. distinct = distinct scenarios", b))
+	r.Rule(fmt.Sprintf("E3 stateless exploration of the real NewConn (sources rewritten into scheduler shims at check time) in virtual time: scenarios = hello {already buffered, arriving at t=1, in two fragments at t=0 and t=2, in two TLS records at t=0 and t=2, only the first of two records, never, a complete record that is not a handshake record / a complete ClientHello that the processing refuses (the alert is written to a client that reads or never reads)} x context {never ends, already cancelled before the call, cancelled by another thread at t=0/1/3, cancelled by the caller right after NewConn returned, deadline at t=2, deadline at t=5 cancelled at t=1} x keys {yes,no} x {plain use, HelloRetryRequest + second hello (in one record, or in two records cut after 3 / 100 bytes) after the return, caller's own transport deadline set before the call}; threads = caller (NewConn, then Read/Write on the result), canceller, client, and the watcher NewConn spawns; ALL schedules with at most %d deviations (preemption / non-canonical thread pick, non-first ready select case, timer order). Monitors: NewConn fails only if the context ended before the hello was complete and then no later than that instant; after a successful return no deadline call starts, no deadline is left set (a deadline the caller had set before is still exactly that), and the caller's I/O succeeds. Round 13: first records on which NewConn fails before a Conn exists (content type 23, record length 65535, end of stream at once / after plain HTTP / in mid-record / after the first of two records) and the context ending only AFTER that failed return (caller's cancel() at once or 10 s later, another thread, its own timer) or never (context.Background()): after any return, failed or not, no deadline call reaches the transport and no goroutine NewConn started is still there. distinct = distinct scenarios", b))
 	r.Assume("computation takes zero virtual time; sequentially consistent memory at synchronisation granularity", "the transport is a scheduler-aware fake whose Read honours deadlines")
 	explore(r, scenarios(), b, "c10")
 }
